@@ -287,6 +287,20 @@ class Interp:
         for rx, h in self.handlers:
             if rx.search(name) or rx.search(f["fn"]):
                 return h(self, name, args)
+        # integer ranges: `(a..=b).contains(&x)` / `(a..b).contains(&x)` over concrete integers
+        if re.search(r"RangeInclusive::<.*>::new$", name):
+            return ("range", deref(args[0]), deref(args[1]), True)
+        if re.search(r"Range(Inclusive)?::<.*>::contains$", name) or re.search(r"Range(Inclusive)?<.*>::contains$", name):
+            r, x = deref(args[0]), deref(args[1])
+            if isinstance(r, Struct) and len(r.fields) == 2:
+                r = ("range", deref(r.fields[0]), deref(r.fields[1]), False)
+            if isinstance(r, tuple) and r and r[0] == "range" and all(isinstance(v, int) for v in (r[1], r[2])):
+                if isinstance(x, int):
+                    return r[1] <= x <= r[2] if r[3] else r[1] <= x < r[2]
+                if isinstance(x, Sym):
+                    # "any value that is none of the constants the function mentions": outside every literal range
+                    return False
+            raise Unsupported("range test on %r / %r" % (r, x))
         # log statements are not part of a function's decision: the `tracing` macros guard their body with level /
         # callsite tests; evaluating those tests to "disabled" skips the body
         if _LOGGING.search(name) or _LOGGING.search(f["fn"]):
